@@ -40,7 +40,7 @@ def tlc_inputs(ctx):
     ntr = int(os.environ.get("VERIF_C08_TRACES", "80" if ctx.quick else "1200"))
 
     def design(_):
-        r = L.tlc_cached(ctx, "Abi", "MC_Abi_mc_%s.cfg" % tier, workers=4 if ctx.quick else 8, timeout=3000, heap="2g" if ctx.quick else "4g")
+        r = L.tlc_cached(ctx, "Abi", "MC_Abi_mc_%s.cfg" % tier, workers=4 if ctx.quick else 8, timeout=7200, heap="2g" if ctx.quick else "4g")
         if not r.ok:
             raise vlib.MachineryError("design-level model Abi/MC_Abi_mc_%s.cfg rejected:\n%s" % (tier, r.out[-4000:]))
         return r
@@ -275,7 +275,7 @@ def judge_descriptors(ctx, pool, descrs, valist_t):
     with open(inp, "w") as f:
         for r in recs:
             f.write(json.dumps(r) + "\n")
-    r = ctx.tlc_must_pass("Abi", "MC_Abi_judge.cfg", workers=12, env={"ABI_IN": inp}, timeout=3000)
+    r = ctx.tlc_must_pass("Abi", "MC_Abi_judge.cfg", workers=12, env={"ABI_IN": inp}, timeout=7200)
     verd = [json.loads(v) for v in r.vcases]
     if len(verd) != len(recs):
         raise vlib.MachineryError("judge run returned %d of %d verdicts" % (len(verd), len(recs)))
